@@ -35,8 +35,9 @@ func tyList(e *syntax.Type) *syntax.Type { return &syntax.Type{Kind: syntax.Kind
 func c15types() []*syntax.Type {
 	return []*syntax.Type{ty("bool"), ty("int32"), ty("string"), ty("bytes"), ty("bin128"), tyAny(), tyMsg(), ty("Ref"), tyImp("pkg", "Ref"),
 		tyList(ty("int64")), tyList(ty("Ref")), tyList(tyImp("pkg", "Ref")), tyList(tyAny()), tyList(tyMsg()),
-		// qualified references whose name is spelled like a builtin type, and references named like contextual keywords
-		tyImp("pkg", "string"), tyImp("pkg", "int64"), tyList(tyImp("pkg", "bytes")), tyImp("pkg", "bin128"), ty("import"), tyList(ty("options"))}
+		// qualified references whose name is spelled like a builtin type (keywords are contextual for field and
+		// method names only, not for type names, so none of those here)
+		tyImp("pkg", "string"), tyImp("pkg", "int64"), tyList(tyImp("pkg", "bytes")), tyImp("pkg", "bin128")}
 }
 
 // c15defs enumerates definition shapes (<=2 fields/values/methods each).
